@@ -153,7 +153,7 @@ theorem graphWF3_of_graphWF (N : Nat) (links : List (Nat × List Tgt)) (h : Grap
     · exact h.fwd n w m port hn' hw2 hm
     · exfalso
       have hne : getL links (wkey n w) ≠ [] := by intro e; rw [e] at hm; simp at hm
-      have hw8 : w < 8 := hw
+      have hw8 : w < 64 := hw
       rcases h.keys (wkey n w) hne with e | ⟨n', w', _, h2, e⟩
       · have := h.small; simp only [wkey, srcKey, srcNode] at e; omega
       · simp only [wkey] at e; omega
@@ -241,7 +241,7 @@ theorem fork_wf : GraphWF3 forkKinds forkLinks := by
   · intro n w m port hn hw hm
     rw [fork_getL] at hm
     have hn4 : n < 4 := hn
-    have hw8 : w < 8 := hw
+    have hw8 : w < 64 := hw
     have h0 : ¬ (wkey n w = srcKey) := by simp only [wkey, srcKey, srcNode]; omega
     rw [if_neg h0] at hm
     by_cases h1 : wkey n w = wkey 0 1
